@@ -31,20 +31,26 @@ pub(crate) fn selection_set(p: &mut Parser) {
 }
 
 pub(crate) fn field_set(p: &mut Parser) {
-    if let Some(T!['{']) = p.peek() {
-        selection_set(p)
-    } else {
-        let _g = p.start_node(SyntaxKind::SELECTION_SET);
-        // We need to enforce recursion limits to prevent
-        // excessive resource consumption or (more seriously)
-        // stack overflows.
-        if p.recursion_limit.check_and_increment() {
-            p.limit_err("parser recursion limit reached");
-            return;
-        }
-        selection(p);
-        p.recursion_limit.decrement();
+    // Start the root node before looking at any token,
+    // so that everything in the input ends up inside of it.
+    let _g = p.start_node(SyntaxKind::SELECTION_SET);
+    let braces = matches!(p.peek(), Some(T!['{']));
+    if braces {
+        p.bump(S!['{']);
     }
+    // We need to enforce recursion limits to prevent
+    // excessive resource consumption or (more seriously)
+    // stack overflows.
+    if p.recursion_limit.check_and_increment() {
+        p.limit_err("parser recursion limit reached");
+        return;
+    }
+    selection(p);
+    p.recursion_limit.decrement();
+    if braces {
+        p.expect(T!['}'], S!['}']);
+    }
+    p.trailing_tokens_are_errors("expected end of input after the selection set");
 }
 
 /// See: https://spec.graphql.org/October2021/#Selection
